@@ -214,6 +214,11 @@ def molecule_recipe(rng, natoms):
             prog.append(["Complement", a, b, bgnum, rng.choice(["ctor", "arrays"])])
         else:
             prog.append(["Eval", ids])
+    if rng.random() < 0.5:
+        # the empty atom set: no density at all; an isolated molecule has an empty exterior
+        a = subset()
+        prog.insert(rng.randrange(len(prog) + 1), ["Eval", []])
+        prog.insert(rng.randrange(len(prog) + 1), ["Complement", a, [], rng.choice([0, 0, 37, 21000]), rng.choice(["ctor", "arrays"])])
     events += prog
     return {"kind": "molecule", "z": z, "at": at, "pt": pts, "poses": poses, "events": events}
 
@@ -261,7 +266,7 @@ def drive(recipe):
     calls = []
 
     def coords(k, ids):
-        return np.array([poses[k - 1]["at"][a - 1] for a in ids], dtype=np.float64) / UNIT
+        return np.array([poses[k - 1]["at"][a - 1] for a in ids], dtype=np.float64).reshape(-1, 3) / UNIT
 
     def points(k):
         return np.array(poses[k - 1]["pt"], dtype=np.float64) / UNIT
@@ -270,7 +275,7 @@ def drive(recipe):
 
     def dens(S):
         ids = [a for a in order if a in S]
-        if recipe.get("via_file"):
+        if recipe.get("via_file") and ids:
             # the atoms reach the library through an .xyz file (PromoleculeDensity.from_xyz_file); the same path is rewritten for
             # every atom set of the program, element labels in the spellings files use (Cl, CL, cl7, CL12)
             from chmpy.core.element import Element
@@ -279,7 +284,9 @@ def drive(recipe):
             for k, a in enumerate(ids):
                 sym = Element.from_atomic_number(z[a - 1]).symbol
                 lab = (sym, sym.upper(), sym.lower() + str(k + 1), sym.upper() + str(10 * k + 3))[(k + len(ids) + a) % 4]
-                lines.append("%s %r %r %r" % (lab, float(xyz[k][0]), float(xyz[k][1]), float(xyz[k][2])))
+                # files of other programs carry further per-atom columns after x, y, z (a charge, a force vector)
+                more = ("", " %.4f" % (0.1 * k - 0.3), " 0.25 -1.5 3.0", "")[(len(ids) + ids[0]) % 4]
+                lines.append("%s %r %r %r%s" % (lab, float(xyz[k][0]), float(xyz[k][1]), float(xyz[k][2]), more))
             path = os.path.join(recipe["via_file"], "atoms.xyz")
             with open(path, "w") as fh:
                 fh.write("\n".join(lines) + "\n")
@@ -292,9 +299,9 @@ def drive(recipe):
                 obj = kept[key]
                 obj.positions[:] = coords(pose, ids)
                 return obj
-            kept[key] = PromoleculeDensity((np.array([z[a - 1] for a in ids]), coords(pose, ids)))
+            kept[key] = PromoleculeDensity((np.array([z[a - 1] for a in ids], dtype=int), coords(pose, ids)))
             return kept[key]
-        return PromoleculeDensity((np.array([z[a - 1] for a in ids]), coords(pose, ids)))
+        return PromoleculeDensity((np.array([z[a - 1] for a in ids], dtype=int), coords(pose, ids)))
 
     how = recipe.get("how") or ""
 
@@ -364,7 +371,7 @@ def drive(recipe):
                 def weight(A, B):
                     ia = [a for a in order if a in A]
                     ib = [a for a in order if a in B]
-                    za, zb = np.array([z[a - 1] for a in ia]), np.array([z[a - 1] for a in ib])
+                    za, zb = np.array([z[a - 1] for a in ia], dtype=int), np.array([z[a - 1] for a in ib], dtype=int)
                     if ev[4] == "arrays":
                         sw = StockholderWeight.from_arrays(za, coords(pose, ia), zb, coords(pose, ib), **kw)
                     else:
